@@ -70,6 +70,15 @@ func c19Render(name string, s sdf.SDF3, cells int) []*sdf.Triangle3 {
 	return out
 }
 
+// c19ValueSDF is an SDF3 implemented on a value (not a pointer) with a slice field.
+type c19ValueSDF struct {
+	bb  sdf.Box3
+	fns []func(v3.Vec) float64
+}
+
+func (s c19ValueSDF) Evaluate(p v3.Vec) float64 { return s.fns[0](p) }
+func (s c19ValueSDF) BoundingBox() sdf.Box3     { return s.bb }
+
 func shardC19(c *Ctx, shard, nshards int) {
 	log.SetOutput(io.Discard) // the renderers log warnings
 	n := c.Pick(480, 4000)
@@ -181,7 +190,12 @@ func shardC19(c *Ctx, shard, nshards int) {
 			continue
 		}
 		fs := s
-		wrapped := &fieldSDF3{bb: box, fn: fs.Evaluate}
+		var wrapped sdf.SDF3 = &fieldSDF3{bb: box, fn: fs.Evaluate}
+		if r.P(0.15) {
+			// a user shape passed by value whose struct holds a slice (not comparable with ==): a renderer may call it, not compare it
+			wrapped = c19ValueSDF{bb: box, fns: []func(v3.Vec) float64{fs.Evaluate}}
+			desc += " [value-type shape]"
+		}
 		cells := r.IR(maxInt2(8, need), maxCells)
 		name := []string{"v1", "v2"}[(i/8)%2]
 		cs := c19Case{i, name, cells, desc, box}
